@@ -42,6 +42,7 @@ from vtlengine.duckdb_transpiler.Transpiler.structure_visitor import (
     StructureVisitor,
     _try_normalize_time_period,
 )
+from vtlengine.duckdb_transpiler.io._validation import TIME_PERIOD_PATTERN
 from vtlengine.Exceptions import RunTimeError, SemanticError
 from vtlengine.Model import Component, Dataset, ExternalRoutine, Role, Scalar, ValueDomain
 from vtlengine.Operators.Join import merged_viral_attribute_names
@@ -53,6 +54,12 @@ from vtlengine.ViralPropagation.sql import (
     vp_no_rule_group_sql,
     vp_pair_sql,
     vp_reduce_refs,
+)
+
+# Strings accepted by cast(..., time_period): the period formats of the data loader, or a
+# date followed by a time of day (read as the daily period of that date).
+_CAST_TIME_PERIOD_PATTERN = (
+    TIME_PERIOD_PATTERN + r"|^\d{4}-\d{2}-\d{2}[ T]\d{2}:\d{2}:\d{2}(\.\d+)?$"
 )
 
 # Matches a pure single-quoted SQL string literal: 'foo' (no embedded quotes).
@@ -1625,11 +1632,26 @@ FROM (
             # the expensive ``vtl_period_normalize`` macro for every row when
             # the input is a compile-time constant (e.g. cast("2022Q1", time_period)).
             literal = _match_plain_sql_string_literal(expr)
-            if literal is not None:
+            if literal is not None and re.match(_CAST_TIME_PERIOD_PATTERN, literal.strip().upper()):
                 canonical = _try_normalize_time_period(literal)
                 if canonical is not None:
                     return f"'{canonical.replace(chr(39), chr(39) * 2)}'"
-            return f"vtl_period_normalize(CAST({expr} AS VARCHAR))"
+            if source_lower in ("time_period", "timeperiod"):
+                return f"vtl_period_normalize(CAST({expr} AS VARCHAR))"
+            # A String is converted like TimePeriod.explicit_cast: an interval gives the
+            # period it spans, an accepted period format is normalized, anything else is
+            # rejected instead of being read as a daily period.
+            text = f"CAST({expr} AS VARCHAR)"
+            return (
+                f"CASE WHEN {text} IS NULL THEN NULL "
+                # the macro holds a subquery that DuckDB evaluates for every row: hand it NULL
+                # for the rows that are not intervals
+                f"WHEN CONTAINS({text}, '/') THEN "
+                f"vtl_interval_to_period(CASE WHEN CONTAINS({text}, '/') THEN {text} END) "
+                f"WHEN regexp_matches(UPPER(TRIM({text})), '{_CAST_TIME_PERIOD_PATTERN}') "
+                f"THEN vtl_period_normalize({text}) "
+                f"ELSE error('Cannot cast String to Time_Period: ' || {text}) END"
+            )
 
         if target_type_str == "Duration" and source_lower == "string":
             return f"vtl_string_to_duration({expr})"
